@@ -7,6 +7,7 @@ import (
 	"go/ast"
 	"go/constant"
 	"go/types"
+	"os"
 	"regexp"
 	"strconv"
 	"strings"
@@ -158,6 +159,16 @@ func (ex *Exec) sp(e SExpr, env *SpecEnv) Term {
 		if t, ok := env.names[x.Name]; ok {
 			return t
 		}
+		if nn, ok := ex.paramAlias[x.Name]; ok && len(ex.inlineStack) == 0 {
+			if _, known := ex.names[x.Name]; !known {
+				if _, isP := ex.params[x.Name]; !isP {
+					x.Name = nn
+					if t, ok := env.names[x.Name]; ok {
+						return t
+					}
+				}
+			}
+		}
 		if env.useVars {
 			if _, known := ex.names[x.Name]; !known {
 				if nn, ok := ex.loopRename[x.Name]; ok {
@@ -213,6 +224,9 @@ func (ex *Exec) sp(e SExpr, env *SpecEnv) Term {
 					}
 				}
 			}
+		}
+		if os.Getenv("GOVC_DEBUG") != "" {
+			fmt.Fprintf(os.Stderr, "DEBUG unknown %q useVars=%v guessLoop=%v rename=%v\n", x.Name, env.useVars, ex.guessLoop != nil, ex.loopRename)
 		}
 		sfail("unknown identifier %q", x.Name)
 	case SHash:
@@ -288,6 +302,17 @@ func (ex *Exec) sp(e SExpr, env *SpecEnv) Term {
 			return Term{app("mod", a, b), SInt}
 		}
 	case SField:
+		if len(ex.loopExprAlias) > 0 {
+			if txt := fieldChainText(x); txt != "" {
+				if t, ok := ex.loopExprAlias[txt]; ok {
+					if root, isId := rootIdent(x); isId {
+						if _, known := ex.names[root]; !known {
+							return t // the expression the contract's loop ranged over, now written differently in the code
+						}
+					}
+				}
+			}
+		}
 		if id, ok := x.X.(SIdent); ok {
 			if _, shadow := env.names[id.Name]; !shadow {
 				_, isVar := ex.names[id.Name]
@@ -652,8 +677,11 @@ func (ex *Exec) guessRenamed(name string) string {
 	ast.Inspect(ex.guessLoop, func(nd ast.Node) bool {
 		if as, ok := nd.(*ast.AssignStmt); ok {
 			for _, l := range as.Lhs {
+				if ix, ok := l.(*ast.IndexExpr); ok {
+					l = ix.X // m[k] = v : the map (or slice) m is what the loop builds
+				}
 				if id, ok := l.(*ast.Ident); ok && id.Name != "_" && !mentioned[id.Name] {
-					if v, ok := ex.names[id.Name]; ok && v.Pos() < ex.guessLoop.Pos() {
+					if v, ok := ex.info.Uses[id].(*types.Var); ok && v.Pos() < ex.guessLoop.Pos() && ex.names[id.Name] == v {
 						cands[id.Name] = true // declared before the loop, assigned inside it
 					}
 				}
@@ -661,6 +689,12 @@ func (ex *Exec) guessRenamed(name string) string {
 		}
 		return true
 	})
+	for _, used := range ex.loopRename {
+		delete(cands, used) // a local already stands for another old name
+	}
+	if os.Getenv("GOVC_DEBUG") != "" {
+		fmt.Fprintf(os.Stderr, "DEBUG guess %q cands=%v mentioned(parsed)=%v\n", name, cands, mentioned["parsed"])
+	}
 	if len(cands) != 1 {
 		return ""
 	}
@@ -676,4 +710,30 @@ func (ex *Exec) guessRenamed(name string) string {
 		return nn
 	}
 	return ""
+}
+
+// fieldChainText: "a.b.c" for a chain of field selections over an identifier, "" otherwise
+func fieldChainText(e SExpr) string {
+	switch x := e.(type) {
+	case SIdent:
+		return x.Name
+	case SField:
+		if p := fieldChainText(x.X); p != "" {
+			return p + "." + x.Name
+		}
+	}
+	return ""
+}
+
+func rootIdent(e SExpr) (string, bool) {
+	for {
+		switch x := e.(type) {
+		case SIdent:
+			return x.Name, true
+		case SField:
+			e = x.X
+		default:
+			return "", false
+		}
+	}
 }
